@@ -29,10 +29,10 @@ ASSUMPTIONS = [
     'which inputs count as errors, the wording of messages and the content of summaries are not judged',
 ]
 FLOOR = {'quick': 2000, 'thorough': 10000}
-SPACE = {'quick': 'token strings <= 3 over the 16 most interaction-prone tokens x 5 formats (function); <= 2 over all 46 tokens x 5 formats x {off,on} x 5 object kinds; faults: 35 sites x 5 exceptions x 5 formats x {off,on}',
+SPACE = {'quick': 'token strings <= 3 over the 19 most interaction-prone tokens x 5 formats x 2 rendering orders (function); <= 2 over all 46 tokens x summary-first order; <= 2 over all 46 tokens x 5 formats x {off,on} x 5 object kinds; faults: 35 sites x 5 exceptions x 5 formats x {off,on}',
          'thorough': 'quick + token strings <= 3 over all 46 tokens x 5 formats, also with process-types on (epytext, reST); <= 4 over the 16-token subset'}
 JOB_TIMEOUT = 2300
-CAP = {'quick': 300.0, 'thorough': 2400.0}
+CAP = {'quick': 900.0, 'thorough': 3600.0}
 
 _LT = 'A section title that is a good deal longer than forty eight characters'
 LONGH = _LT + '\n' + '=' * len(_LT) + '\n\n'
@@ -42,7 +42,7 @@ T = ['w', '\n\n', '\n  ', '\n    ', 'L{', '}', 'B{', 'C{', 'U{', 'E{', '@param a
      '*', '|', '_', '<a&"', 'Args:', 'Returns\n-------', '.. note::', '.. code::', '\x00', '\x0b', '\udc80', '\uffff', '\\', '=====', '\xa0', '\r', '@ivar v:',
      # problems docutils only mentions at INFO level and recovers from
      'Ti\n==\n\n', '3. w\n\n', '.. _tgt: http://x/\n\n', 'w::\n    lit\n\n']
-T16 = ['Ti\n==\n\n', '3. w\n\n', '.. _tgt: http://x/\n\n', 'w', '\n\n', '\n  ', 'L{', '}', 'C{', '@param a:', ':param a:', '- ', '::', '>>> ', '`', '``', '*', '.. note::', '=====', '@foo ', '\xa0', 'Title\n=====\n\n', LONGH, LONGSUB, INDENTED_FIELD]
+T16 = ['w', '\n\n', '\n  ', 'L{', '}', 'C{', '@param a:', ':param a:', '- ', '::', '>>> ', '`', '``', '*', '.. note::', '=====', '@foo ', '\xa0', 'Title\n=====\n\n', INDENTED_FIELD]
 FMTS = ['epytext', 'restructuredtext', 'google', 'numpy', 'plaintext']
 KINDS = ['module', 'class', 'function', 'attribute', 'property', 'inherited']
 SRC = ('"""placeholder"""\nclass K:\n    "placeholder"\n    @property\n    def p(self):\n        "placeholder"\n    attr = 1\n    "placeholder"\n'
@@ -352,21 +352,24 @@ def token_strings(alphabet: Sequence[str], n: int, first: Optional[str] = None) 
 
 
 def jobs(tier: str) -> Iterable[Tuple[str, Any]]:
+    # cheapest bounds first: the fault enumeration and the composites are a few seconds, the token strings are the bulk
+    for fmt in FMTS:
+        for pt in (False, True):
+            yield ('faults', ('fault', fmt, pt))
+    for fmt in FMTS:
+        yield ('owner-field-composites', ('composite', fmt))
+    for fmt in FMTS:
+        for kind in KINDS:
+            for pt in ((False, True) if kind in ('function', 'class') else (False,)):       # type fields live in function and class docstrings
+                yield ('tokens<=2:all-kinds', ('tok', fmt, pt, kind, 2, None, 'T'))
+    for fmt in FMTS:
+        yield ('tokens<=2:summary-first', ('tok', fmt, False, 'function', 2, None, 'T', 'summary-first'))
     for fmt in FMTS:
         for t0 in T16:
             yield ('tokens<=3:T16:function', ('tok', fmt, False, 'function', 3, t0, 'T16'))
     for fmt in FMTS:
-        for pt in (False, True):
-            for kind in KINDS:
-                yield ('tokens<=2:all-kinds', ('tok', fmt, pt, kind, 2, None, 'T'))
-    for fmt in FMTS:
         for t0 in T16:
             yield ('tokens<=3:T16:summary-first', ('tok', fmt, False, 'function', 3, t0, 'T16', 'summary-first'))
-    for fmt in FMTS:
-        yield ('owner-field-composites', ('composite', fmt))
-    for fmt in FMTS:
-        for pt in (False, True):
-            yield ('faults', ('fault', fmt, pt))
     if tier == 'thorough':
         for fmt in FMTS:
             for t0 in T:
